@@ -108,6 +108,15 @@ def apply_replacement(functions: dict, variant: str, mode: str):
         name = resolve_name(functions, variant[5:])
         f = identical_copy(functions[name])
         return ({**functions, name: f} if mode == "dict" else [functions, {name: f}]), name
+    if variant.startswith("module_"):
+        # the user passes a whole module: by path, by import string or as module object
+        from pathlib import Path
+
+        import sim.user_module as um
+
+        src = {"module_path": Path(um.__file__), "module_import": "sim.user_module", "module_object": um}[variant]
+        base = functions if isinstance(functions, list) else [functions]
+        return [*base, src], "kindergeld_m"
     if variant.startswith("derived:"):
         name, f = resolve_derived(functions, variant[8:])
         if name is None:
